@@ -90,6 +90,9 @@ def run_app(sc, choices=None, world_hook=None):
         if spec.get("reject"):
             p = RejectPeer(w, int(spec["reject"]))
             peers.append(p)
+            if tls:
+                from .tls import TLSPeer
+                return TLSPeer(w, p, "good")
             return p
         cfg = {"script": spec.get("script", []), "on_ping": spec.get("on_ping") or {"mode": "pong"},
                "on_close": spec.get("on_close") or {"mode": "reply"}, "eof_on_client_eof": True}
